@@ -6,6 +6,7 @@ CONSTANTS
   Y2Of <- MCY2
   OffsOf <- MCOff
   MulSet <- MCMul
+  ScaleThin = 4
   Q = 8
   Emit = TRUE
 INVARIANTS Theorems Vector
